@@ -470,7 +470,7 @@ def rules_fresh_values(run):
     from ..selftest.runner import apply_edits
     from ..loader import Tree
     from ..prog import Program
-    r = run.rule('C19.7', 'values written in steps are evaluated afresh for every step: no memoised function of the BDD layer hands out an object built by eval (a list shared '
+    r = run.rule('C19.8', 'values written in steps are evaluated afresh for every step: no memoised function of the BDD layer hands out an object built by eval (a list shared '
                           'between two steps is the list the statechart has already changed; an expected value can be the very object it is compared with)')
     n, found = memoised_builders(run.prog)
     run.floor(n, 30, r, 'functions of sismic.bdd / sismic.testing')
@@ -480,7 +480,7 @@ def rules_fresh_values(run):
     run.ok(r, 'sismic.bdd', '%d functions examined, none memoises a built value' % n if not found else 'examined', None)
     ov = apply_edits(CACHE_FIXTURE)
     if ov is None:
-        run.note('C19.7: positive fixture not applicable to the current text of steps.py (detector not re-proved on this run)')
+        run.note('C19.8: positive fixture not applicable to the current text of steps.py (detector not re-proved on this run)')
     else:
         _, f2 = memoised_builders(Program(Tree(root=run.tree.root, overlay=dict(run.tree.overlay, **ov))))
         run.floor(len(f2), 1, r, 'findings on the positive fixture (lru_cache around eval)')
@@ -972,7 +972,11 @@ def rules_userdata(run):
     for n in ast.walk(env.tree):
         if isinstance(n, ast.Call) and isinstance(n.func, ast.Attribute) and n.func.attr == 'get' and 'userdata' in q.unparse(n.func.value) and n.args and q.const_str(n.args[0]):
             read.setdefault(q.const_str(n.args[0]), []).append(n)
+    documented = {'statechart', 'interpreter_klass', 'property_statecharts', 'debug_on_error'}
     for k in sorted(set(written) | set(read)):
+        if k in read and k not in written and k not in documented:
+            run.ok(r, 'bdd', "userdata key '%s' is read only (an option nobody sets reads as None)" % k, read[k][0])
+            continue
         run.check(k in written and k in read, r, 'bdd', "userdata key '%s' written by execute_bdd and read by the hooks" % k,
                   "key '%s': written %s, read %s" % (k, k in written, k in read), read.get(k, [W])[0] if k in read else W)
     ps = q.param_names(W)
